@@ -236,6 +236,13 @@ def definedness(t, pos, env: E.Env, nz: Normalizer, excluded=None) -> list:
             if s not in (">0", "<0"):
                 if not (excluded and excluded(x[2], den)):
                     problems.append(("div", E.fmt(x[2], 160), s))
+        elif k == "mul":
+            # inf * x is undefined at x == 0
+            for a, b in ((x[1], x[2]), (x[2], x[1])):
+                if a == E.INF or (a[0] == "neg" and a[1] == E.INF):
+                    sb = nz.facts.sign(nz.rf(b))
+                    if sb not in (">0", "<0"):
+                        problems.append(("inf-times", E.fmt(b, 160), sb))
         elif k == "fn" and x[1] == "log":
             arg = nz.rf(x[2])
             s = nz.facts.sign(arg)
